@@ -141,7 +141,7 @@ def hostile_inserts(src, rng):
     for _ in range(n):
         kind = rng.choice(['longstr', 'longstr2', 'comment', 'quotes', 'concat', 'pragma'])
         L = rng.choice([40, 70, 100, 125, 140, 200])
-        filler = ''.join(rng.choice('abcdefghij klmnop,;:()=+*/&!') for _ in range(L))
+        filler = ''.join(rng.choice('abcdefghij klmnop,;:()=+-/&!') for _ in range(L)).replace('//', '/')
         if kind == 'longstr':
             ins.append(f"    print '(A)', '{filler}'")
         elif kind == 'longstr2':
